@@ -619,6 +619,28 @@ func runC12(c *Ctx, r *Report) {
 		})
 		r.Check(sym, "C12.R5", ssaFuncName(tfn), "TypeEqual tests a == b", c.Pos(tfn.Pos()), "TypeEqual no longer contains the reflexive a == b test")
 	}
+	// shared C11.R2: the small map's linear search is the other user of the order
+	if !r.Sub {
+		r.Rule("C11.R2", "(shared) SmallMap.get compares (stored key, searched key) with Cmp on every iteration and stops on exactly 1 and 0")
+		sub := NewReport("C11", r.Tier, c)
+		sub.Sub = true
+		runC11(c, sub)
+		n := 0
+		for _, o := range sub.Obls {
+			if o.Rule != "C11.R2" || !strings.Contains(o.Func, "SmallMap).get") {
+				continue
+			}
+			n++
+			if o.status == FAIL {
+				r.Fail(o.Rule, o.Func, o.Desc, o.Pos, o.Reason)
+			} else {
+				r.Ok(o.Rule, o.Func, o.Desc, o.Pos)
+			}
+		}
+		if n < 3 {
+			r.Undecided("C12: only %d shared C11.R2 obligations on SmallMap.get", n)
+		}
+	}
 }
 
 func retBool(b *ssa.BasicBlock) (bool, bool) {
@@ -743,16 +765,21 @@ func (c *Ctx) checkMinMaxLess(r *Report, cmpFn *types.Func) {
 		}
 		return false
 	}
+	nRetCK, otherRet := 0, ""
 	eachInstr(ck, func(in ssa.Instruction) {
 		if ret, ok := in.(*ssa.Return); ok {
+			nRetCK++
 			if call, ok := ret.Results[0].(*ssa.Call); ok && isCallTo(call, cmpFn) {
 				if fieldOfParam(call.Common().Args[0], ck.Params[0], 0) && fieldOfParam(call.Common().Args[1], ck.Params[1], 0) {
 					okCK = true
+					return
 				}
 			}
+			otherRet = c.Pos(instrPos(ret)) + ": " + ret.Results[0].String()
 		}
 	})
-	r.Check(okCK, "C12.R1", ssaFuncName(ck), "CompareKeys(a,b) = Cmp(a.Key, b.Key)", c.Pos(ck.Pos()), "map key search does not compare the two keys in order with Cmp")
+	r.Check(okCK && otherRet == "", "C12.R1", ssaFuncName(ck), "CompareKeys(a,b) = Cmp(a.Key, b.Key) on every path", c.Pos(ck.Pos()),
+		"the large map's key search has a path that does not return Cmp(a.Key, b.Key) ("+otherRet+"): the large and the small representation (which calls Cmp) can then disagree on whether two keys are the same key, or on their order")
 }
 
 // tokenTypeNames maps token.Type constant values to their names.
